@@ -40,7 +40,11 @@ pub enum Item { Text(String), Comp(Comp), /// a line break directly between two 
 pub enum Block { Step(Vec<Item>), Text(Vec<String>), Meta(String, String), Section(Option<String>),
     /// `>> [mode]: components`, a block that only lists components (one per line), `>> [mode]: all` (extended dialect):
     /// the components are defined but no step is added and step numbering is not affected
-    Components(Vec<Comp>) }
+    Components(Vec<Comp>),
+    /// `>> [key]: value` with key `mode` / `define` / `duplicate` (extended dialect): a mode switch, not a metadata entry.
+    /// `[mode]: text` .. `[mode]: all` makes the steps between them text paragraphs; `[mode]: steps` makes every component
+    /// (without `+`) a reference; `[duplicate]: ref` makes a component whose name was defined before a reference
+    Switch(String, String) }
 
 #[derive(Clone, Debug)]
 pub struct WfRecipe { pub front: Option<Vec<(String, String)>>, pub blocks: Vec<Block>, pub extended: bool }
@@ -111,6 +115,54 @@ pub fn generate(rng: &mut Rng, extended: bool) -> WfRecipe {
                 blocks.push(Block::Components(cs));
             }
             2 => { blocks.push(Block::Text(vec![rng.pick_str(&["A note for the cook.", "Serve warm", "Étape finale"]).to_string()])); section_has_content = true; }
+            4 if extended && rng.chance(1, 2) => {
+                // a region between two mode switches; the modes are back to the defaults afterwards
+                let cands: Vec<usize> = (0..defs.ingredients.len()).filter(|&i| !defs.ingredients[i].2).collect();
+                match rng.below(3) {
+                    0 => {
+                        // text mode: steps made of words only become text paragraphs (no step, no number)
+                        blocks.push(Block::Switch(rng.pick_str(&["mode", "define"]).to_string(), "text".to_string()));
+                        for _ in 0..1 + rng.below(2) {
+                            blocks.push(Block::Step(vec![Item::Text(rng.pick_str(&["Rest well.", "Let it cool é", "Wait until golden and stir slowly."]).to_string())]));
+                        }
+                        blocks.push(Block::Switch("mode".to_string(), rng.pick_str(&["all", "default"]).to_string()));
+                        section_has_content = true;
+                    }
+                    1 if !cands.is_empty() => {
+                        // steps mode: a component written without `&` is a reference to the last earlier definition
+                        let d = cands[rng.below(cands.len())];
+                        let name = defs.ingredients[d].0.clone();
+                        blocks.push(Block::Switch(rng.pick_str(&["mode", "define"]).to_string(), "steps".to_string()));
+                        defs.ingredients.push((name.clone(), M_REF, true, None, None));
+                        blocks.push(Block::Step(vec![Item::Text("Use ".to_string()),
+                            Item::Comp(Comp { kind: Kind::Ingredient, name, alias: None, mods: 0, inter: None, qty: None, note: None, braces: true }),
+                            Item::Text(" now.".to_string())]));
+                        blocks.push(Block::Switch("mode".to_string(), rng.pick_str(&["all", "default"]).to_string()));
+                        steps_in_section += 1;
+                        section_has_content = true;
+                    }
+                    _ => {
+                        // duplicate mode `reference`: the second occurrence of a name is a reference to the first
+                        let name = rng.pick_str(&["lard", "rye flour"]).to_string();
+                        let seen = (0..defs.ingredients.len()).any(|i| !defs.ingredients[i].2 && fold(&defs.ingredients[i].0) == fold(&name));
+                        let q = |rng: &mut Rng| Some(Qty { val: Val::Num(Num::Regular(1.0 + rng.below(9) as f64, String::new())), unit: Some("g".to_string()), lock: false });
+                        let fix = |q: Option<Qty>| q.map(|mut q| { if let Val::Num(Num::Regular(v, s)) = &mut q.val { *s = format!("{}", *v as u32); } q });
+                        blocks.push(Block::Switch("duplicate".to_string(), rng.pick_str(&["ref", "reference"]).to_string()));
+                        let q1 = fix(q(rng));
+                        if seen { defs.ingredients.push((name.clone(), M_REF, true, None, None)); } else { defs.ingredients.push((name.clone(), 0, false, Some(false), Some("g".to_string()))); }
+                        blocks.push(Block::Step(vec![Item::Text("Melt ".to_string()),
+                            Item::Comp(Comp { kind: Kind::Ingredient, name: name.clone(), alias: None, mods: 0, inter: None, qty: q1, note: None, braces: true })]));
+                        let q2 = if rng.chance(1, 2) { fix(q(rng)) } else { None };
+                        defs.ingredients.push((name.clone(), M_REF, true, None, None));
+                        blocks.push(Block::Step(vec![Item::Text("Add ".to_string()),
+                            Item::Comp(Comp { kind: Kind::Ingredient, name, alias: None, mods: 0, inter: None, qty: q2, note: None, braces: true }),
+                            Item::Text(" again.".to_string())]));
+                        blocks.push(Block::Switch("duplicate".to_string(), rng.pick_str(&["new", "default"]).to_string()));
+                        steps_in_section += 2;
+                        section_has_content = true;
+                    }
+                }
+            }
             _ => {
                 let n = 1 + rng.below(5);
                 let mut items: Vec<Item> = Vec::new();
@@ -322,6 +374,7 @@ pub fn spell(r: &WfRecipe, st: &Style) -> String {
             // the fences may be glued to the name (`==Dough==`); a name that ends in a digit or letter is followed by `=` directly
             Block::Section(n) => match n { Some(n) => if rng.chance(1, 3) { out.push_str(&format!("{}{n}{}", rng.pick_str(&["=", "=="]), rng.pick_str(&["", "=", "=="]))) } else { out.push_str(&format!("={} {n} {}", if rng.chance(1, 2) { "=" } else { "" }, rng.pick_str(&["", "=", "=="]))) }, None => out.push_str(rng.pick_str(&["=", "==", "= ="])) },
             Block::Text(ps) => { for (i, p) in ps.iter().enumerate() { if i > 0 { out.push('\n'); } out.push_str("> "); out.push_str(p); } }
+            Block::Switch(k, v) => out.push_str(&format!(">>{}[{k}]{}:{}{v}{}", sp(&mut rng, st), sp(&mut rng, st), sp(&mut rng, st), sp(&mut rng, st))),
             Block::Components(cs) => {
                 // a `>>` line is a block of its own: the blank lines around the mode switches are optional
                 let tight = rng.chance(1, 2);
@@ -385,8 +438,19 @@ pub fn expected(r: &WfRecipe) -> String {
     let mut step_no = 1u32;
     let mut meta: Vec<(String, String)> = Vec::new();
     let mut used_old_meta: Vec<()> = Vec::new();
+    let (mut text_mode, mut steps_mode, mut dup_ref) = (false, false, false);
     for b in &r.blocks {
         match b {
+            Block::Switch(k, v) => {
+                if k == "duplicate" { dup_ref = v == "ref" || v == "reference"; }
+                else { text_mode = v == "text"; steps_mode = v == "steps"; }
+            }
+            Block::Step(items) if text_mode => {
+                // a step block in text mode: its shown text becomes a text paragraph
+                let mut t = String::new();
+                for it in items { match it { Item::Text(x) => t.push_str(x), Item::SoftBreak => t.push(' '), Item::Comp(_) => panic!("component in a text mode block") } }
+                if !t.is_empty() { cur.1.push(format!("TEXT({})", cps(&t))); }
+            }
             Block::Meta(k, v) => {
                 if let Some(e) = meta.iter_mut().find(|e| e.0 == *k) { e.1 = v.clone(); } else { meta.push((k.clone(), v.clone())); }
                 used_old_meta.push(());
@@ -419,9 +483,10 @@ pub fn expected(r: &WfRecipe) -> String {
                             Kind::Cookware => {
                                 let idx = cws.len();
                                 let mut e = EC { name: c.name.clone(), qty: c.qty.clone(), note: c.note.clone(), mods: c.mods, target: None, refs: vec![], in_step: true };
-                                if c.mods & M_REF != 0 {
-                                    let t = (0..cws.len()).rev().find(|&i| cws[i].mods & M_REF == 0 && fold(&cws[i].name) == fold(&c.name)).expect("cookware ref target");
-                                    e.mods |= cws[t].mods & (M_HIDDEN | M_OPT);
+                                let found = (0..cws.len()).rev().find(|&i| cws[i].mods & M_REF == 0 && fold(&cws[i].name) == fold(&c.name));
+                                if c.mods & M_REF != 0 || (c.mods & M_NEW == 0 && (steps_mode || (dup_ref && found.is_some()))) {
+                                    let t = found.expect("cookware ref target");
+                                    e.mods |= M_REF | (cws[t].mods & (M_HIDDEN | M_OPT));
                                     e.target = Some(t);
                                     cws[t].refs.push(idx);
                                 }
@@ -437,9 +502,10 @@ pub fn expected(r: &WfRecipe) -> String {
                                     } else if rel { secs.len() - val as usize } else { val as usize - 1 };
                                     e.rel = format!("ref{target}>{}", if sec { "section" } else { "step" });
                                     e.is_def = false;
-                                } else if c.mods & M_REF != 0 {
+                                } else if c.mods & M_REF != 0 || (c.mods & M_NEW == 0 && (steps_mode || (dup_ref &&
+                                    (0..ings.len()).any(|i| ings[i].mods & M_REF == 0 && fold(&ings[i].name) == fold(&c.name))))) {
                                     let t = (0..ings.len()).rev().find(|&i| ings[i].mods & M_REF == 0 && fold(&ings[i].name) == fold(&c.name)).expect("ingredient ref target");
-                                    e.mods |= ings[t].mods & (M_HIDDEN | M_OPT | M_RECIPE);
+                                    e.mods |= M_REF | (ings[t].mods & (M_HIDDEN | M_OPT | M_RECIPE));
                                     e.rel = format!("ref{t}>ingredient");
                                     e.is_def = false;
                                     ings[t].refs.push(idx);
